@@ -91,7 +91,7 @@ theorem skipped_lines (lf : Str → R LineOut × Nat) (ls1 ls2 : List Str) (l : 
 theorem crlf (opt : Nat) (t1 t2 : Str) :
     itemsL (assembleLine opt) (splitEol (t1 ++ 13 :: 10 :: t2)) =
     itemsL (assembleLine opt) (splitEol (t1 ++ 10 :: t2)) := by
-  rw [C06.splitEol_split t1 13 (10 :: t2) (by decide), C06.splitEol_split t1 10 t2 (by decide)]
+  rw [AL.Lemmas.splitEol_split t1 13 (10 :: t2) (by decide), AL.Lemmas.splitEol_split t1 10 t2 (by decide)]
   have : splitEol (10 :: t2) = [] :: splitEol t2 := by simp [splitEol, eolCh]
   rw [this]
   exact skipped_lines (assembleLine opt) (splitEol t1) (splitEol t2) [] (assembleLine_local opt).empty
